@@ -1,5 +1,7 @@
 """helpers shared by the check modules (solver side; imports z3)."""
 import importlib
+from symx import world as _world
+_world.install()      # every check module loads py_ecc through the private import world (from VERIF_REPO, default /repo)
 import z3
 from symx import core, ring
 from symx.ring import Ring, Res
